@@ -99,11 +99,17 @@ class MeshLine1(MeshSimplex, Mesh):
                       np.arange(self.t.shape[1])]
 
         def finder(x):
-            xin = x.copy()  # bring endpoint inside for np.digitize
-            xin[x == self.p[0, ix[-1]]] = self.p[0, ix[-2:]].mean()
-            elems = np.nonzero(ix[np.digitize(xin, self.p[0, ix])][:, None]
-                               == maxt)[1].astype(np.int32)
-            if len(elems) < len(x):
+            elems = np.zeros(len(x), dtype=np.int32) - 1
+            # first look for the element on the right of each point, then
+            # on the left, so that both end points of every connected
+            # component are found
+            for right in (False, True):
+                jx = np.digitize(x, self.p[0, ix], right=right)
+                match = (ix[np.minimum(jx, len(ix) - 1)][:, None] == maxt)
+                match[jx == len(ix)] = False
+                found = match.any(axis=1) * (elems == -1)
+                elems[found] = match[found].argmax(axis=1)
+            if (elems == -1).any():
                 raise ValueError("Point is outside of the mesh.")
             return elems
 
